@@ -44,6 +44,193 @@ let coq_SF_Stable =
 let coq_SF_Dynamic =
   Npos (Coq_xO Coq_xH)
 
+(** val default_transform_on : bool **)
+
+let default_transform_on =
+  false
+
+(** val default_optimize : bool **)
+
+let default_optimize =
+  false
+
+(** val default_merge_props : bool **)
+
+let default_merge_props =
+  true
+
+(** val default_enable_object_slots : bool **)
+
+let default_enable_object_slots =
+  true
+
+(** val default_resolve_type : bool **)
+
+let default_resolve_type =
+  false
+
+(** val option_keys : str list **)
+
+let option_keys =
+  (s_ (String ((Ascii (false, false, true, false, true, true, true, false)),
+    (String ((Ascii (false, true, false, false, true, true, true, false)),
+    (String ((Ascii (true, false, false, false, false, true, true, false)),
+    (String ((Ascii (false, true, true, true, false, true, true, false)),
+    (String ((Ascii (true, true, false, false, true, true, true, false)),
+    (String ((Ascii (false, true, true, false, false, true, true, false)),
+    (String ((Ascii (true, true, true, true, false, true, true, false)),
+    (String ((Ascii (false, true, false, false, true, true, true, false)),
+    (String ((Ascii (true, false, true, true, false, true, true, false)),
+    (String ((Ascii (true, true, true, true, false, false, true, false)),
+    (String ((Ascii (false, true, true, true, false, true, true, false)),
+    EmptyString))))))))))))))))))))))) :: ((s_ (String ((Ascii (true, true,
+                                             true, true, false, true, true,
+                                             false)), (String ((Ascii (false,
+                                             false, false, false, true, true,
+                                             true, false)), (String ((Ascii
+                                             (false, false, true, false,
+                                             true, true, true, false)),
+                                             (String ((Ascii (true, false,
+                                             false, true, false, true, true,
+                                             false)), (String ((Ascii (true,
+                                             false, true, true, false, true,
+                                             true, false)), (String ((Ascii
+                                             (true, false, false, true,
+                                             false, true, true, false)),
+                                             (String ((Ascii (false, true,
+                                             false, true, true, true, true,
+                                             false)), (String ((Ascii (true,
+                                             false, true, false, false, true,
+                                             true, false)),
+                                             EmptyString))))))))))))))))) :: (
+    (s_ (String ((Ascii (true, true, false, false, false, true, true,
+      false)), (String ((Ascii (true, false, true, false, true, true, true,
+      false)), (String ((Ascii (true, true, false, false, true, true, true,
+      false)), (String ((Ascii (false, false, true, false, true, true, true,
+      false)), (String ((Ascii (true, true, true, true, false, true, true,
+      false)), (String ((Ascii (true, false, true, true, false, true, true,
+      false)), (String ((Ascii (true, false, true, false, false, false, true,
+      false)), (String ((Ascii (false, false, true, true, false, true, true,
+      false)), (String ((Ascii (true, false, true, false, false, true, true,
+      false)), (String ((Ascii (true, false, true, true, false, true, true,
+      false)), (String ((Ascii (true, false, true, false, false, true, true,
+      false)), (String ((Ascii (false, true, true, true, false, true, true,
+      false)), (String ((Ascii (false, false, true, false, true, true, true,
+      false)), (String ((Ascii (false, false, false, false, true, false,
+      true, false)), (String ((Ascii (true, false, false, false, false, true,
+      true, false)), (String ((Ascii (false, false, true, false, true, true,
+      true, false)), (String ((Ascii (false, false, true, false, true, true,
+      true, false)), (String ((Ascii (true, false, true, false, false, true,
+      true, false)), (String ((Ascii (false, true, false, false, true, true,
+      true, false)), (String ((Ascii (false, true, true, true, false, true,
+      true, false)), (String ((Ascii (true, true, false, false, true, true,
+      true, false)), EmptyString))))))))))))))))))))))))))))))))))))))))))) :: (
+    (s_ (String ((Ascii (true, false, true, true, false, true, true, false)),
+      (String ((Ascii (true, false, true, false, false, true, true, false)),
+      (String ((Ascii (false, true, false, false, true, true, true, false)),
+      (String ((Ascii (true, true, true, false, false, true, true, false)),
+      (String ((Ascii (true, false, true, false, false, true, true, false)),
+      (String ((Ascii (false, false, false, false, true, false, true,
+      false)), (String ((Ascii (false, true, false, false, true, true, true,
+      false)), (String ((Ascii (true, true, true, true, false, true, true,
+      false)), (String ((Ascii (false, false, false, false, true, true, true,
+      false)), (String ((Ascii (true, true, false, false, true, true, true,
+      false)), EmptyString))))))))))))))))))))) :: ((s_ (String ((Ascii
+                                                      (true, false, true,
+                                                      false, false, true,
+                                                      true, false)), (String
+                                                      ((Ascii (false, true,
+                                                      true, true, false,
+                                                      true, true, false)),
+                                                      (String ((Ascii (true,
+                                                      false, false, false,
+                                                      false, true, true,
+                                                      false)), (String
+                                                      ((Ascii (false, true,
+                                                      false, false, false,
+                                                      true, true, false)),
+                                                      (String ((Ascii (false,
+                                                      false, true, true,
+                                                      false, true, true,
+                                                      false)), (String
+                                                      ((Ascii (true, false,
+                                                      true, false, false,
+                                                      true, true, false)),
+                                                      (String ((Ascii (true,
+                                                      true, true, true,
+                                                      false, false, true,
+                                                      false)), (String
+                                                      ((Ascii (false, true,
+                                                      false, false, false,
+                                                      true, true, false)),
+                                                      (String ((Ascii (false,
+                                                      true, false, true,
+                                                      false, true, true,
+                                                      false)), (String
+                                                      ((Ascii (true, false,
+                                                      true, false, false,
+                                                      true, true, false)),
+                                                      (String ((Ascii (true,
+                                                      true, false, false,
+                                                      false, true, true,
+                                                      false)), (String
+                                                      ((Ascii (false, false,
+                                                      true, false, true,
+                                                      true, true, false)),
+                                                      (String ((Ascii (true,
+                                                      true, false, false,
+                                                      true, false, true,
+                                                      false)), (String
+                                                      ((Ascii (false, false,
+                                                      true, true, false,
+                                                      true, true, false)),
+                                                      (String ((Ascii (true,
+                                                      true, true, true,
+                                                      false, true, true,
+                                                      false)), (String
+                                                      ((Ascii (false, false,
+                                                      true, false, true,
+                                                      true, true, false)),
+                                                      (String ((Ascii (true,
+                                                      true, false, false,
+                                                      true, true, true,
+                                                      false)),
+                                                      EmptyString))))))))))))))))))))))))))))))))))) :: (
+    (s_ (String ((Ascii (false, false, false, false, true, true, true,
+      false)), (String ((Ascii (false, true, false, false, true, true, true,
+      false)), (String ((Ascii (true, false, false, false, false, true, true,
+      false)), (String ((Ascii (true, true, true, false, false, true, true,
+      false)), (String ((Ascii (true, false, true, true, false, true, true,
+      false)), (String ((Ascii (true, false, false, false, false, true, true,
+      false)), EmptyString))))))))))))) :: ((s_ (String ((Ascii (false, true,
+                                              false, false, true, true, true,
+                                              false)), (String ((Ascii (true,
+                                              false, true, false, false,
+                                              true, true, false)), (String
+                                              ((Ascii (true, true, false,
+                                              false, true, true, true,
+                                              false)), (String ((Ascii (true,
+                                              true, true, true, false, true,
+                                              true, false)), (String ((Ascii
+                                              (false, false, true, true,
+                                              false, true, true, false)),
+                                              (String ((Ascii (false, true,
+                                              true, false, true, true, true,
+                                              false)), (String ((Ascii (true,
+                                              false, true, false, false,
+                                              true, true, false)), (String
+                                              ((Ascii (false, false, true,
+                                              false, true, false, true,
+                                              false)), (String ((Ascii (true,
+                                              false, false, true, true, true,
+                                              true, false)), (String ((Ascii
+                                              (false, false, false, false,
+                                              true, true, true, false)),
+                                              (String ((Ascii (true, false,
+                                              true, false, false, true, true,
+                                              false)),
+                                              EmptyString))))))))))))))))))))))) :: []))))))
+
 (** val html_tags : str list **)
 
 let html_tags =
